@@ -2,6 +2,7 @@ import Driver.Params
 import Driver.Pool
 import Driver.Dec
 import Driver.Mem
+import Driver.Ledger
 
 def main (args : List String) : IO UInt32 := do
   match args with
@@ -9,4 +10,5 @@ def main (args : List String) : IO UInt32 := do
   | ["pool"] => Driver.Pool.main; return 0
   | ["dec"] => Driver.Dec.main; return 0
   | ["mem"] => Driver.Mem.main; return 0
+  | ["ledger"] => Driver.Ledger.main; return 0
   | _ => IO.eprintln "usage: zvdriver <model>"; return 2
